@@ -883,10 +883,9 @@ class ConstrainedEuclideanMetricSystem(
     ) -> ArrayLike:
         # Use parenthesis to force right-to-left evaluation to avoid
         # matrix-matrix products
-        mom -= self.jacob_constr(state).T @ (
+        return mom - self.jacob_constr(state).T @ (
             self.inv_gram(state) @ (self.jacob_constr(state) @ (self.metric.inv @ mom))
         )
-        return mom
 
 
 class DenseConstrainedEuclideanMetricSystem(ConstrainedEuclideanMetricSystem):
